@@ -56,3 +56,19 @@ CLAIMED["C21"] = (
  "SSA dominance and path rules over the language server's document cache (who-writes, error=>no store, success=>store, key derivation, mapper rebuilt per change, splice order, range rejection)",
  "Decides the store discipline around LSPServer.fileMap and the sequential application of incremental changes: only the notification handlers write the cache, an error from changedText never reaches the store, every acknowledged change is stored (one known exception recorded), keys are URI.Path() everywhere, the mapper is rebuilt on the loop-carried content, the splice is prefix+text+suffix, invalid ranges are rejected. Does not decide the UTF-16 position arithmetic.",
  SSA_BASE)
+CLAIMED["C23"] = (
+ "writer/reader field-coverage lint over token.FileSet serialization (fields read by the position functions vs. fields written by Write and restored by Read, exportedness) and provenance rule on the panic position constant",
+ "Decides that every File/FileSet field the position computations read survives Write/Read through an exported serialized field of the same role, and that the position string compiled into panics is Fset.Position(<panicking instruction>.Pos()).String(), emitted before the runtime call. Does not decide the line-table arithmetic or what the host prints.",
+ AST_BASE)
+CLAIMED["C24"] = (
+ "finite abstract evaluation (all assignments) of the constraint evaluator and of the loader's tag predicate over Boolean atoms, plus AST shape rules on the recursive-descent grammar and the file filter polarity",
+ "Decides that Not/And/Or/Tag Eval have their Boolean truth tables, that the grammar is or>and>not>atom with each level on its own operator and node kind, that a file is dropped iff its constraint is false under the predicate (target OS, target arch, configured tags), and that malformed constraints abort the import. Does not decide tag lexing or the print/parse round trip.",
+ AST_BASE)
+CLAIMED["C25"] = (
+ "table-inverse lint over the SLIP writer switch and reader switch (constants vs. RFC 1055, escape tables compose to identity, delimiters), one-byte-read and checked-read rules, SLIPMUX writer/reader guard symmetry",
+ "Decides that the writer's and reader's escape tables are inverse on every byte class with RFC 1055 constants, that packets are END-delimited, that the transport is read one checked byte at a time (chunk independence by construction), and that SLIPMUX prepends/strips the frame byte and appends/removes the FCS under the same guards. Does not decide the EOF-with-data corner of io.Reader or FCS arithmetic.",
+ AST_BASE)
+CLAIMED["C26"] = (
+ "registry-exhaustiveness lint over go-dap message types vs. constructor tables, framing rules (announced length = written bytes, io.ReadFull only, bound before allocation), dispatch-table check of DecodeMessage",
+ "Decides, exhaustively over the ~110 message types, that each is constructed exactly once under its protocol name and that request/response registries have equal keys; that the Content-Length framing writes len(content) then content and reads with io.ReadFull under a bound; and that decoding dispatches each message kind to its own registry, failed responses to ErrorResponse. Does not decide JSON round trip of individual field types.",
+ AST_BASE)
